@@ -8,6 +8,7 @@ for c in $IDS; do
   out=$(./check $c --tier $TIER 2>&1); e=$?
   echo "$out" | grep -E "^(VIOLATION|INCONCLUSIVE|C[0-9]+ )" | cut -c1-260
   echo "   -> exit $e"
+  [ $e -ne 0 ] && echo "$out" | tail -15
   [ $e -ne 0 ] && rc=1
 done
 exit $rc
